@@ -193,7 +193,9 @@ func forEachCorpusText(c *core.Ctx, opt corpusOpt, f func(family, text string) b
 	// comments as first / last / only statement of a block, followed by another statement
 	for _, blk := range []string{"func f() { %s }", "if a { %s }", "for a { %s }", "x = func() { %s }", "if a { 1 } else { %s }", "f(func() { %s })", "x => { %s }",
 		"if a { %s } else { y }", "if a { %s } else if b { y } else { z }", "if a { 1 } else if b { %s } else { z }", "for a { %s }; for b { y }", "func f() { if a { %s } else { y } }"} {
-		for _, in := range []string{"/* c */", "1 /* c */", "// c\n", "1 // c\n", "/* c */ 1", "/* c */\n1", "1\n/* c */", "/* c\n d */", "/* a */ /* b */", "// a\n// b\n"} {
+		for _, in := range []string{"/* c */", "1 /* c */", "// c\n", "1 // c\n", "/* c */ 1", "/* c */\n1", "1\n/* c */", "/* c\n d */", "/* a */ /* b */", "// a\n// b\n",
+			// a comment next to the only other statement of the block, for the statements whose printing depends on being alone in a block
+			"/* c */ if b { 2 }", "if b { 2 } /* c */", "// c\nif b { 2 }", "if b { 2 } // c\n", "/* c */ if b { 2 } else { /* d */ if e { 3 } }", "/* c */ x => 1", "/* c */ return 1", "/* c */ -1", "/* c */ (1)", "/* c */ [1]", "/* c */ for b { 2 }", "/* c */ func g() { 1 }"} {
 			for _, after := range []string{"", "\ng()", " g()", "\n// d\ng()", " /* d */ g()", "\n/* d */\ng()"} {
 				emit("cmt", strings.Replace(blk, "%s", in, 1)+after)
 			}
